@@ -52,6 +52,11 @@ func TestVerifEpisodes(t *testing.T) {
 		if journal != nil {
 			fmt.Fprintf(journal, "start %s\n", p.ID)
 		}
+		// live copy of the running episode's events: the parent reads it if this process dies
+		if live, err := os.Create(os.Getenv("VERIF_OUT") + ".live"); err == nil {
+			liveSink = json.NewEncoder(live)
+			defer live.Close()
+		}
 		t0 := time.Now()
 		res := runEpisode(&p)
 		enc.Encode(map[string]any{"ev": "reset", "ep": p.ID, "family": p.Family, "cfg": p.Cfg, "clients": p.Clients, "outcome": p.Outcome, "sched": p.Sched.Kind, "seed": p.Sched.Seed, "faults": p.Faults})
